@@ -126,6 +126,21 @@ impl State {
     }
 }
 
+/// Verification-only seam (feature `verif_hooks`): construct a state from and
+/// read back its raw `(key, nonce)`.
+#[cfg(feature = "verif_hooks")]
+impl State {
+    #[doc(hidden)]
+    pub fn verif_from_parts(k: Key, nonce: Nonce) -> Self {
+        Self { k, nonce }
+    }
+
+    #[doc(hidden)]
+    pub fn verif_parts(&self) -> (Key, Nonce) {
+        (self.k, self.nonce)
+    }
+}
+
 /// Generates a random stream key using [crate::rng::copy_randombytes].
 pub fn crypto_secretstream_xchacha20poly1305_keygen(key: &mut Key) {
     copy_randombytes(key);
